@@ -85,3 +85,28 @@ Proof.
   repeat split; [left; reflexivity | apply not_within; reflexivity].
 Qed.
 Print Assumptions C18_real_dir_needed_refuted.
+
+(* The hypothesis built into the model of the deployment — shutil.copytree is called with symlinks=False, so a link
+   inside a copied source folder becomes a real directory of the instance — is necessary for C18_deploy_tree_confined /
+   C18_copy_makes_no_link: were the links of the source folder re-created in the instance ([deploy_fs] with
+   preserve = true), a manifest that Manifest.validate and the deployment accept (two :copy entries, the second key a
+   nested path below the first) would be populated THROUGH the re-created link, outside the instance.  (No finding:
+   the code follows links; kept so that the theorem's dependence on it is explicit.) *)
+Theorem C18_copy_follow_needed_refuted :
+  exists srcs tgt man p k,
+    nodup_keys man = true /\ deploy_ok false man = true /\
+    In (p, k) (fst (deploy_fs res_fs true false srcs tgt man)) /\ ~ within tgt p /\
+    In (["loc"; "i"; "data"; "shared"], ELink ["store"]) (fst (deploy_fs res_fs true false srcs tgt man)) /\
+    srcs = [("ds", Some [(["readme.txt"], SFile); (["shared"], SLnk "/store" (Some true)); (["shared"; "big.dat"], SFile)]);
+            ("extra", Some [(["notes.txt"], SFile)])] /\
+    man = [("data", "ds:copy"); ("data/shared/extra", "extra:copy")].
+Proof.
+  exists [("ds", Some [(["readme.txt"], SFile); (["shared"], SLnk "/store" (Some true)); (["shared"; "big.dat"], SFile)]);
+          ("extra", Some [(["notes.txt"], SFile)])],
+         ["loc"; "i"], [("data", "ds:copy"); ("data/shared/extra", "extra:copy")], ["store"; "extra"; "notes.txt"], EFile.
+  repeat split.
+  - vm_compute. do 4 right. left. reflexivity.
+  - apply not_within; reflexivity.
+  - vm_compute. do 2 right. left. reflexivity.
+Qed.
+Print Assumptions C18_copy_follow_needed_refuted.
